@@ -49,7 +49,9 @@ C03_Status(C, A, R) ==
 
 (* ---------------------------------------------------------------- C04 *)
 C04_Returns(R) == R.e = "ret"                                \* not abort{budget|panic}
-C04_Honest(C, R) == (R.e = "ret" /\ IsSol(R) /\ R.status = "Success" /\ C.errctl) => R.finite
+\* never Success with non-finite states; and the samples accepted so far are accepted states of an error-controlled
+\* method, hence finite, whatever the status
+C04_Honest(C, R) == (R.e = "ret" /\ IsSol(R) /\ C.errctl) => R.finite
 
 (* ---------------------------------------------------------------- C05 (recorded runs) *)
 C05_Recorded(C, R) ==
